@@ -2,7 +2,7 @@
 summaries) and helpers used by several property modules."""
 import re
 
-from abtverif import cfg, locks, tables
+from abtverif import canon, cfg, locks, tables
 
 ATOMIC_HDR = "src/include/abtd_atomic.h"
 SPIN_HDR = "src/include/abtd_spinlock.h"
@@ -328,6 +328,363 @@ def rule_X6(P, rep):
         ok = bool(re.search(r"(_create(_|$)|_init$|_init_|_reinit$)", c)) and not re.search(r"reset|set$", c)
         rep.ob("X6", "%s (a creation / initialisation routine) initialises a wait list" % c, ok,
                "%s re-initialises the wait list of a live object" % c, loc="src", site="waitlist_init/" + c)
+
+
+# ---------------------------------------------------------------------------
+# X7: definite initialisation of heap records
+
+X7_DOC = ("an object obtained from ABTU_malloc (uninitialised memory) has every field written -- by a store, by a helper that is "
+          "given the field's address, or by a helper that is given the object and touches the field -- on EVERY path from the "
+          "allocation to the point where the object is published (handle stored through an out-parameter, pointer returned, "
+          "stored into shared memory); a field initialised on one branch only leaves a recycled heap chunk's bytes in the object")
+
+# fields that are deliberately initialised later, one line of reason each
+X7_LATER = {
+    ("ABTI_xstream", "ctx"): "the native-thread context is created when the stream is started (ABTD_xstream_context_create / "
+                             "_set_self); xstream_create only builds the descriptor",
+}
+
+
+# fields that are needed in some configurations of the object only: written on at least one path
+X7_SOME = {
+    ("data", "mutex"): "the lock of an ABT_POOL_ACCESS_PRIV pool is never taken (C07.R1 checks that the lock-free variants are "
+                       "installed for private pools only), so pool_init clears it for the shared access modes only",
+}
+
+
+def _x7_touch(P, R, f):
+    """Functions that (transitively) use R::f as an lvalue: store to it, pass its address, or write below it."""
+    cache = P.__dict__.setdefault("_x7touch", {})
+    key = (R, f)
+    if key not in cache:
+        w = set()
+        for G in P.functions.values():
+            pm = None
+            for j, nd in enumerate(G.nodes):
+                if nd and nd.get("k") == "mem" and nd.get("r") == R and nd.get("f") == f:
+                    pm = pm or G.parent_map()
+                    x, par = j, pm.get(j)
+                    while par is not None and G.nodes[par].get("k") in ("mem", "idx") and G.nodes[par].get("b") == x:
+                        x, par = par, pm.get(par)
+                    if par is None or G.nodes[par].get("k") != "load":
+                        w.add(G.key)
+                        break
+        cg = P.callgraph()
+        changed = True
+        while changed:
+            changed = False
+            for g, callees in cg.items():
+                if g not in w and callees & w:
+                    w.add(g)
+                    changed = True
+        cache[key] = w
+    return cache[key]
+
+
+def _x7_top_field(r, p):
+    for pre in ("&" + p + "->", p + "->"):
+        if r.startswith(pre):
+            m = re.match(r"[A-Za-z_0-9]+", r[len(pre):])
+            return m.group(0) if m else None
+    return None
+
+
+def x7_sites(P, F):
+    """[(call node, record, pointer variable)] for ABTU_malloc(sizeof(R), &p) / ABTU_memalign(.., sizeof(R), &p)."""
+    out = []
+    for _b, i in F.calls():
+        nd = F.nodes[i]
+        if nd.get("fn") not in ("ABTU_malloc", "ABTU_memalign") or len(nd["a"]) < 2:
+            continue
+        sn = F.nodes[F.strip(nd["a"][-2])]
+        if sn.get("k") != "sizeof":
+            continue
+        R = sn.get("t", "").replace("struct ", "").strip()
+        if R not in P.records and R.endswith("_t") and (F.file, R[:-2]) in P.file_records:
+            R = R[:-2]      # typedef struct data data_t (file-local)
+        if R not in P.records:
+            continue
+        pn = F.nodes[F.strip(nd["a"][-1])]
+        if pn.get("k") == "ref" and pn.get("dk") == "var":
+            # the out-pointer travels through a temporary (`pp = &p_new` of a flattened allocation helper)
+            d = canon.reaching_def(F, pn["n"], i)
+            if isinstance(d, int):
+                pn = F.nodes[F.strip(d)]
+        if pn.get("k") == "un" and pn["op"] == "&":
+            out.append((i, R, canon.rooted(F, pn["e"])))
+    return out
+
+
+def x7_analyse(P, F, site, R, p):
+    """Path-sensitive typestate (cfg.simulate: constants, decided branches and correlated tests of the same error
+    code are followed, so a flattened init helper that fails early does not merge with its success path):
+    [(publication node, fields not yet written on some feasible path to it)]; None if the function is too large."""
+    fields = [f["n"] for f in P.file_records.get((F.file, R), P.records[R])["fields"]]
+    al = {}         # {local: variable it is a plain copy of} on the path being followed (set by the typestate)
+
+    def rooted(e):
+        r = canon.rooted(F, e)
+        m = re.match(r"^(&?)([A-Za-z_]\w*)(.*)$", r)
+        if m and m.group(2) != p:
+            v, hops = m.group(2), 0
+            while v in al and hops < 4:
+                v, hops = al[v], hops + 1
+            if v != m.group(2):
+                return m.group(1) + v + m.group(3)
+        return r
+
+    def gen(i):
+        nd = F.nodes[i]
+        k = nd.get("k")
+        g = set()
+        if k == "bin" and nd.get("asg"):
+            f = _x7_top_field(rooted(nd["lh"]), p)
+            if f:
+                g.add(f)
+            if rooted(nd["lh"]) == "*" + p:
+                g |= set(fields)        # whole-object assignment
+        elif k == "un" and nd["op"] in ("post++", "post--", "pre++", "pre--"):
+            f = _x7_top_field(rooted(nd["e"]), p)
+            if f:
+                g.add(f)
+        elif k == "call" and i != site:
+            G = P.resolve_call(F, nd) if nd.get("fn") else None
+            for a in nd["a"]:
+                r = rooted(a)
+                f = _x7_top_field(r, p)
+                if f:
+                    g.add(f)
+                elif r == p:
+                    if G is None or not G.blocks:
+                        g |= set(fields)        # memset / memcpy / unknown: assume it fills the object
+                    else:
+                        g |= set(f2 for f2 in fields if G.key in _x7_touch(P, R, f2))
+        return g
+
+    def is_p(e):
+        if rooted(e) == p:
+            return True
+        en = F.nodes[F.strip(e)]
+        return en.get("k") == "call" and (en.get("fn") or "").endswith("_get_handle") and en["a"] and \
+            rooted(en["a"][0]) == p
+
+    def publishes(i):
+        nd = F.nodes[i]
+        k = nd.get("k")
+        if k == "bin" and nd.get("asg") and nd["op"] == "=":
+            lhs = rooted(nd["lh"])
+            return not (lhs == p or lhs.startswith(p + "->")) and F.nodes[F.strip(nd["lh"])].get("k") != "ref" and is_p(nd["rh"])
+        if k == "ret" and "e" in nd:
+            return is_p(nd["e"])
+        if k == "call" and i != site:
+            fn = nd.get("fn") or ""
+            # (a store into a global variable during single-threaded start-up -- ABTI_global_set_global -- is not a
+            # publication to another thread and is not counted)
+            if "atomic_" in fn and ("store" in fn or "cas" in fn or "exchange" in fn):
+                return any(is_p(a) for a in nd["a"][1:])
+        return False
+
+    anywhere = set()
+    for v_ in set(x["n"] for nd_ in F.nodes if nd_ and nd_.get("k") == "decl" for x in nd_["vars"]):
+        ds = F.var_defs(v_)
+        if len(ds) == 1 and ds[0] is not None and F.nodes[F.strip(ds[0])].get("k") == "ref":
+            al[v_] = F.nodes[F.strip(ds[0])]["n"]      # single-definition copies, for the path-insensitive census
+    for b in F.blocks:
+        for i in F.blocks[b].elems:
+            if i != site:
+                anywhere |= gen(i)
+
+    class TS(cfg.Typestate):
+        init = "pre"                # the allocation has not happened on this path yet
+        track_facts = True
+
+        def __init__(self):
+            self.found = {}
+
+        def event(self, F_, nid, st, ctx):
+            al.clear()
+            al.update(ctx.aliases())
+            if nid == site:
+                return frozenset()
+            if st == "pre":
+                return st
+            if publishes(nid):
+                miss = [f for f in fields if f not in st and (R, f) not in X7_LATER and
+                        not ((R, f) in X7_SOME and f in anywhere)]
+                cur = self.found.setdefault(nid, [])
+                cur.extend(m for m in miss if m not in cur)
+            g = gen(nid)
+            return st | g if g else st
+
+    ts = TS()
+    try:
+        cfg.simulate(F, ts, max_states=300000)
+    except RuntimeError:
+        return None
+    return sorted(ts.found.items())
+
+
+def rule_X7(P, rep, records=None):
+    seen = {}
+    for F in sorted(P.functions.values(), key=lambda f: (f.file, f.line)):
+        if not F.blocks:
+            continue
+        for site, R, p in x7_sites(P, F):
+            if records is not None and R not in records:
+                continue
+            pubs = x7_analyse(P, F, site, R, p)
+            if pubs is None:
+                rep.notes.append("X7: %s too large for the path-sensitive analysis, skipped" % F.name)
+                continue
+            for i, missing in pubs:
+                seen[R] = seen.get(R, 0) + 1
+                rep.ob("X7", "%s (%s): every field of the new %s is written before it is published" % (F.name, F.file, R), not missing,
+                       "not written on every path from the allocation (%s) to %s: %s" % (F.loc(site), F.loc(i), ", ".join(missing)),
+                       loc=F.loc(i), site="x7/%s:%s/%s/%d" % (F.file, F.name, R, [x[0] for x in pubs].index(i)))
+    want = set(records) if records is not None else set()
+    rep.need(want <= set(seen), "no published allocation found for %s" % sorted(want - set(seen)))
+    if records is None:
+        rep.need(len(seen) >= 15, "only %d kinds of heap records with a published allocation" % len(seen))
+
+
+# ---------------------------------------------------------------------------
+# X8: a loop over an array looks at the element its counter selects
+
+X8_DOC = ("a counted loop (`for (i = ..; i < n; i++)`) whose body subscripts an array with a constant never looks at more than that "
+          "one element: if the body does not use the counter at all, the per-element check or action it was written for (is the "
+          "unit in ANY pool of the scheduler, release EVERY pool, ...) silently covers element 0 only; and a descending loop that "
+          "stops at `i > 0` while subscripting with [i] never visits element 0")
+
+
+def rule_X8(P, rep):
+    from abtverif import ctrldep
+    n = 0
+    for F in sorted(P.functions.values(), key=lambda f: (f.file, f.line)):
+        if not F.blocks:
+            continue
+        pm = None
+        live = None
+        for hb, B in sorted(F.blocks.items()):
+            if B.tc is None or B.tk not in ("ForStmt", "WhileStmt", "DoStmt"):
+                continue
+            if live is None:
+                live = F.live_nodes()
+            cn = F.nodes[F.strip(B.tc)]
+            if cn.get("k") != "bin" or cn["op"] not in ("<", "<=", "!=", ">", ">="):
+                continue
+            vn = F.nodes[F.strip(cn["lh"])]
+            if vn.get("k") != "ref" or vn.get("dk") != "var":
+                continue
+            v = vn["n"]
+            if const_eval(F, cn["rh"]) is not None and F.nodes[F.strip(cn["rh"])].get("cv") != 0:
+                # `for (k = 0; k < 2; k++)`: a fixed number of attempts, not a walk over an array of n elements
+                fixed = True
+            else:
+                fixed = False
+            body = [b for b in F.blocks if b != hb and any(a == hb for a, _k in ctrldep.closure(F, b))]
+            if not body:
+                continue
+            pm = pm or F.parent_map()
+            assigned = set(vv for b in body for i in F.blocks[b].elems for vv, _r in canon._assigned_var(F, F.nodes[i]))
+            # pointer parameters that come with an element count (the loop bound mentions a sibling parameter)
+            arrays = set(p_["n"] for p_ in F.params if p_["t"].rstrip().endswith("*"))
+            used = False
+            stepped = False
+            consts = []
+            for b in body:
+                for i in list(F.blocks[b].elems) + ([F.blocks[b].tc] if F.blocks[b].tc is not None else []):
+                    for j in F.descendants(i):
+                        nd = F.nodes[j]
+                        if nd.get("k") == "ref" and nd.get("n") == v:
+                            par = pm.get(j)
+                            if par is not None and F.nodes[par].get("k") == "un" and F.nodes[par]["op"] in ("post++", "pre++", "post--", "pre--"):
+                                stepped = True
+                                gp = pm.get(par)
+                                while gp is not None and F.nodes[gp].get("k") in ("cast", "load"):
+                                    gp = pm.get(gp)
+                                if gp is not None and gp in live:
+                                    used = True     # `a[k++]`: the value of the step expression is used
+                            else:
+                                used = True
+                        if nd.get("k") == "idx" and "cv" in F.nodes[F.strip(nd["i"])] and F.nodes[F.strip(nd["i"])].get("k") != "ref":
+                            consts.append((j, F.render(j)))
+                        if nd.get("k") == "un" and nd["op"] == "*":
+                            # `*arr` for a pointer the loop never advances is arr[0]
+                            en = F.nodes[F.strip(nd["e"])]
+                            if en.get("k") == "ref" and en.get("dk") in ("param", "var") and en.get("n") not in assigned and \
+                                    en.get("n") in arrays:
+                                consts.append((j, F.render(j)))
+            if not stepped:
+                continue        # not a counting loop
+            # a descending loop that stops at `i > 0` while subscripting with `[i]` never reaches element 0
+            rv = F.nodes[F.strip(cn["rh"])].get("cv")
+            if (cn["op"] == ">" and rv == 0) or (cn["op"] == ">=" and rv == 1) or (cn["op"] == "!=" and rv == 0):
+                direct = []
+                for b in body:
+                    for i in list(F.blocks[b].elems):
+                        for j in F.descendants(i):
+                            nd = F.nodes[j]
+                            if nd.get("k") == "idx":
+                                xn = F.nodes[F.strip(nd["i"])]
+                                if xn.get("k") == "ref" and xn.get("n") == v:
+                                    direct.append((j, F.render(j)))
+                rep.ob("X8", "%s: the descending loop `%s` reaches element 0 of what it subscripts" % (F.name, canon.expr(F, B.tc, 0)),
+                       not direct, "the loop ends at %s == 1 but subscripts with [%s]: element 0 (%s) is never visited" %
+                       (v, v, ", ".join(sorted(set(c[1] for c in direct)))[:160]),
+                       loc=F.loc(direct[0][0]) if direct else "%s:%d" % (F.file, F.line), site="x8/%s/%s/descending" % (F.name, v))
+            n += 1
+            bad = not used and bool(consts) and not fixed
+            rep.ob("X8", "%s: the loop over `%s` looks at the element its counter selects" % (F.name, canon.expr(F, B.tc, 0)), not bad,
+                   "the body never uses `%s` but reads %s on every pass" % (v, ", ".join(sorted(set(c[1] for c in consts)))[:200]),
+                   loc=F.loc(consts[0][0]) if bad else "%s:%d" % (F.file, F.line), site="x8/%s/%s" % (F.name, v))
+    rep.need(n >= 40, "only %d counted loops found" % n)
+
+
+def const_eval(F, i):
+    """Integer value of an expression built from literals, sizeof/offsetof (folded by clang), arithmetic and the
+    ABTU_roundup_size / ABTU_max_size / ABTU_min_size helpers; None if it depends on anything else."""
+    i = F.strip(i)
+    if i is None or i < 0:
+        return None
+    nd = F.nodes[i]
+    k = nd.get("k")
+    if "cv" in nd and k != "ref":
+        return nd["cv"]
+    if k == "bin" and nd["op"] in ("+", "-", "*", "/", "%", "<<", ">>", "&", "|"):
+        a, b = const_eval(F, nd["lh"]), const_eval(F, nd["rh"])
+        if a is None or b is None:
+            return None
+        try:
+            return {"+": a + b, "-": a - b, "*": a * b, "/": a // b if b else None, "%": a % b if b else None,
+                    "<<": a << b, ">>": a >> b, "&": a & b, "|": a | b}[nd["op"]]
+        except (ValueError, OverflowError):
+            return None
+    if k == "call" and nd.get("fn") in ("ABTU_roundup_size", "ABTU_max_size", "ABTU_min_size", "ABTU_roundup_uint64", "ABTU_max_uint64"):
+        args = [const_eval(F, a) for a in nd["a"]]
+        if len(args) != 2 or None in args:
+            return None
+        if nd["fn"].startswith("ABTU_roundup"):
+            return ((args[0] + args[1] - 1) // args[1]) * args[1] if args[1] else None
+        return max(args) if "max" in nd["fn"] else min(args)
+    if k == "un" and nd["op"] in ("-", "+", "~"):
+        a = const_eval(F, nd["e"])
+        return None if a is None else {"-": -a, "+": a, "~": ~a}[nd["op"]]
+    return None
+
+
+def copy_root(F, var, at):
+    """The variable a local is a plain copy of at node `at` (a renamed temporary, a flattened helper's parameter)."""
+    hops = 0
+    while var is not None and hops < 4:
+        d = canon.reaching_def(F, var, at)
+        if not isinstance(d, int):
+            break
+        dn = F.nodes[F.strip(d)]
+        if dn.get("k") != "ref" or dn.get("dk") not in ("var", "param"):
+            break
+        var, at = dn["n"], d
+        hops += 1
+    return var
 
 
 def borrow(rep, P, rule_fn, label, only=None, **kw):
